@@ -5,6 +5,7 @@ import importlib
 import json
 import pkgutil
 import time
+from pathlib import Path
 import traceback
 from typing import Any, Dict, List, Optional, Sequence
 
@@ -140,6 +141,8 @@ def prove(ctx: Ctx, targets: Sequence[str], kind: str = "P", by_property: bool =
         for q in res["inlined"]:
             if q.startswith("ahbicht") and q not in ctx.inlined and q not in targets:
                 ctx.inlined.append(q)
+    if ctx.tier == "thorough":
+        runtime_contracts(ctx, targets)
 
 
 def prove_lemmas(ctx: Ctx, module: str, names: Optional[Sequence[str]] = None) -> None:
@@ -163,3 +166,34 @@ def run_bounded(ctx: Ctx, prop: str) -> bool:
     t0 = time.time()
     m.run(ctx, ctx.tier, ctx.seed)
     return True
+
+
+def runtime_contracts(ctx: Ctx, targets: Sequence[str]) -> None:
+    """thorough tier: the contracts are installed over the real functions while the repository's own test suite runs
+    (subprocess); a firing clause is a NOTE + undecided obligation (too strict a contract, or a defect the tests do
+    not assert) - never a violation by itself"""
+    import subprocess
+    import sys
+    t0 = time.time()
+    load_sidecars()
+    targets = [t for t in targets if t in REGISTRY and REGISTRY[t].runtime_checkable]
+    if not targets:
+        return
+    r = subprocess.run([sys.executable, "-W", "ignore", "-m", "vlib.runtime_main", json.dumps(list(targets))],
+                       capture_output=True, text=True, cwd=str(Path(__file__).resolve().parent.parent), timeout=1200)
+    line = next((l for l in r.stdout.splitlines() if l.startswith("RUNTIME-JSON ")), None)
+    if line is None:
+        ctx.obligation("runtime/contracts-hold-during-the-repository-test-suite", "undecided",
+                       backend="native contract checking", detail=(r.stdout + r.stderr)[-300:])
+        return
+    data = json.loads(line[len("RUNTIME-JSON "):])
+    calls = sum(s.get("checked", 0) for s in data["stats"].values())
+    ctx.crosscheck["concrete_runs"] += calls
+    ctx.crosscheck["summaries"] += data["installed"]
+    status = "discharged" if not data["fired"] and data["pytest_exit"] == 0 and calls > 0 else "undecided"
+    ctx.obligation("runtime/contracts-hold-during-the-repository-test-suite", status,
+                   backend="native contract checking under CPython (repository test suite)", seconds=time.time() - t0,
+                   detail=f"{data['installed']} contracts installed, {calls} calls checked, pytest: {data['pytest_tail']}; "
+                          f"fired: {data['fired'][:3]}")
+    for f in data["fired"][:5]:
+        ctx.note(f"runtime contract fired (too strict a clause, or a defect the tests do not assert): {f}")
